@@ -471,8 +471,49 @@ def rule_r5(chk, facts, P):
         raise AnalysisBroken('only %d name-search loops found' % n_)
 
 
+def rule_r9(chk, facts, P):
+    chk.rule('C13-R9', 'PUBLIC/GLOBAL/FORWARD name lists: the section qualifier that is resolved for one name (argument of '
+             'IdentifySection() inside the loop over the statement\'s arguments) is set in the same iteration on every path '
+             '- from the "name:section" split or to the empty default; a value left over from the previous name would '
+             'redirect an unqualified name into that name\'s section', min_instances=1)
+    n = 0
+    for f in P.all_funcs():
+        if f.entry is None or f.unit.name not in ('asmallg.c', 'asmpars.c', 'as.c'):
+            continue
+        loops = [(h, s0, f.loop_body(h, s0)) for h, s0 in f.loops()]
+        for b, i, ln, c in f.calls('IdentifySection'):
+            a = nocast(c[2][0]) if c[2] else None
+            if a is None or not (a[0] == 'u' and a[1] == '&' and nocast(a[2])[0] == 'l'):
+                continue
+            V = nocast(a[2])
+            inner = [x for x in loops if b in x[2]]
+            if not inner:
+                continue
+            h, s0, body = min(inner, key=lambda x: len(x[2]))
+            n += 1
+
+            def defines(ex, V=V, c=c):
+                for m in walk_own(ex):
+                    if is_assign(m) and nocast(m[2]) == V:
+                        return True
+                    if m[0] == 'call' and m is not c and callee_name(m) != 'IdentifySection':
+                        for x in m[2]:
+                            x = nocast(x)
+                            if x[0] == 'u' and x[1] == '&' and nocast(x[2]) == V:
+                                return True
+                return False
+            ok, w = f.guarded(b, i, lambda l: False, defines, start=s0)
+            chk.ob('C13-R9', '%s:%s:IdentifySection(&%s)' % (f.unit.name, f.name, V[1]), ok, f.loc(ln),
+                   'set in every iteration' if ok else
+                   '%s is resolved on a path of the iteration (%s) on which this iteration has not set it: it still holds the '
+                   'qualifier of the previous name ("public a:parent, b" puts b into parent, too)' % (V[1], ' '.join(w[-5:])))
+    if not n:
+        raise AnalysisBroken('no IdentifySection() call inside an argument loop found')
+
+
 def run(chk, facts, info):
     P = facts.program('asl')
+    rule_r9(chk, facts, P)
     rule_r5(chk, facts, P)
     rule_r1(chk, facts, P)
     rule_r2(chk, facts, P)
